@@ -3,6 +3,8 @@
 //!
 //! usage: oq3v check <ID> [--tier quick|thorough] [--replay FILE]
 
+mod c19;
+mod c20;
 mod engine;
 mod textgen;
 mod textprops;
@@ -15,6 +17,8 @@ fn run_property(id: &str, ctx: &RunCtx) -> bool {
         "C01" => textprops::run(textprops::P::C01, ctx),
         "C02" => textprops::run(textprops::P::C02, ctx),
         "C14" => textprops::run(textprops::P::C14, ctx),
+        "C19" => c19::run(ctx),
+        "C20" => c20::run(ctx),
         _ => return false,
     }
     true
@@ -33,6 +37,11 @@ fn replay_input(id: &str, v: &Value) -> Result<Vec<Failure>, String> {
             let s = source.ok_or("replay file has no input.source")?;
             Ok(textprops::replay_text(p, s))
         }
+        "C19" => {
+            let ops = c19::ops_from_json(&v["input"]["ops"]).ok_or("replay file has no valid input.ops")?;
+            Ok(c19::replay_ops(&ops))
+        }
+        "C20" => c20::replay_types(v),
         _ => Err(format!("no replay for {id}")),
     }
 }
